@@ -331,7 +331,7 @@ SHUTTLE_PROPS = {
             "assume": ["every iteration of a multi-iteration run is validated from the specification's initial state (task ids from 0, statics/Once/lazy/TLS uninitialised, step counter 0)",
                        "predecessor kinds: completed, abandoned by a None-returning scheduler, abandoned by ContinueAfter, failed (deadlock/panic, caught)",
                        "memory-level isolation (recycled stacks) is only observed through behaviour and drop counters"]},
-    "C13": {"stages": [F("bounds", 40, 400, mc=False), S("bounds", 16, 150), S("kernel", 8, 60)],
+    "C13": {"stages": [F("bounds", 40, 400, mc=False), S("bounds", 16, 150), S("kernel", 8, 60), F("corpus_stop", 0, 0, mc=False)],
             "kinds": {"trace-rejected", "invariant-violated", "budget-mismatch", "nondeterminism", "harness-crash", "tlc-error"},
             "assume": ["steps = schedule entries (decisions + random draws) since the last reset_step_count",
                        "an execution that needs exactly n steps may or may not be reported (unspecified corner)",
@@ -367,7 +367,8 @@ SHUTTLE_PROPS = {
             "assume": ["condvar waits never wake spuriously, park may; barrier leader = arrival completing the group"]},
     "C06": {"stages": [F("mpsc", 30, 300), F("mpsc_drop", 30, 300), F("corpus_mpsc", 0, 0)],
             "assume": ["blocked senders/receivers are served FIFO (Shuttle's documented model)"]},
-    "C08": {"stages": [F("kernel", 14, 150), F("mutex", 14, 120), F("park", 20, 150)],
+    "C08": {"stages": [F("kernel", 14, 150), F("mutex", 14, 120), F("park", 20, 150), F("corpus_stop", 0, 0, mc=False),
+                       S("sem_fair", 6, 60)],
             "assume": ["observed through a recording Scheduler wrapper placed inside the runtime's MetricsScheduler"]},
     "C18": {"stages": [F("sem_unfair", 20, 200), F("sem_fair", 20, 200), F("sem_unfair_obs", 16, 150, mc=False),
                        F("sem_fair_obs", 16, 150, mc=False), F("async_sem", 24, 120), F("corpus_sem", 0, 0)],
